@@ -780,6 +780,41 @@ def in_place_cannot_broadcast(ctx, rule="RB"):
                   bad=bad[0] if bad else "", line=bad[1] if bad else None)
 
 
+def popped_keywords(ctx, rule="RJ"):
+    """`v = kwargs.pop("name", default)` followed by `callee(..., **kwargs)`: the popped keyword no longer travels with the spread.  When the
+    callee has a parameter of that name and the call does not pass it explicitly (from the popped value), the caller's argument is silently
+    dropped and the callee runs with its default."""
+    for qn in scope(ctx):
+        fa = ctx.an.fa(qn)
+        if not fa.ok:
+            continue
+        bad = None
+        for fx in [fa] + list(fa.nested.values()):
+            for p in fx.paths:
+                pops = {}
+                for e in p.events:
+                    if e.kind != "call":
+                        continue
+                    t = e.data[0]
+                    if t[1][0] == "attr" and t[1][2] == "pop" and t[1][1][0] == "param" and t[1][1][1].startswith("**") and t[2] and is_const(t[2][0]) and isinstance(t[2][0][1], str):
+                        pops[t[2][0][1]] = (t[1][1], t)
+                        continue
+                    cq = callee(t)
+                    f2 = ctx.pkg.functions.get(cq) if isinstance(cq, str) else None
+                    if f2 is None or not pops:
+                        continue
+                    spreads = [v for k, v in t[3] if k is None]
+                    for name, (kwparam, popterm) in pops.items():
+                        if kwparam in spreads and name in f2.params and not any(k == name for k, _v in t[3]):
+                            pos = f2.call_params.index(name) if name in f2.call_params else None
+                            if pos is not None and pos < len(t[2]):
+                                continue
+                            bad = bad or ("%r is popped from %s before %s(..., %s) is called and is not passed on: %s runs with its own default for %r whatever the caller asked for"
+                                          % (name, kwparam[1], cq.rsplit(".", 1)[1], kwparam[1], cq.rsplit(".", 1)[1], name), e.line)
+        ctx.check(rule, qn + "|popped-keywords-are-passed-on", False if bad else True, "no keyword is popped from **kwargs and then lost before the spread to a callee that accepts it", fn=qn, nontrivial=False,
+                  bad=bad[0] if bad else "", line=bad[1] if bad else None)
+
+
 class _Sentinel:
     kind, data, line = "end", (), None
 
